@@ -106,8 +106,8 @@ Lemma index_exact_reach es p :
 Proof. apply index_exact_lemma. Qed.
 
 (* ---- the pinned behaviours, replayed on the model with one repair switched off ---- *)
-Definition cfg_nodel : cfg := mkCfg false true true true true.
-Definition cfg_nocas : cfg := mkCfg true false true true true.
+Definition cfg_nodel : cfg := mkCfg false true true true true true.
+Definition cfg_nocas : cfg := mkCfg true false true true true true.
 
 Definition takeover_history : list pevent :=
   [PAccept 1000 true; PSess 0 (EReader true); PSess 0 (EReader true);
@@ -132,20 +132,20 @@ Definition close_race_history : list sevent :=
   [EConnLost; EFrame FrErr; EReader true; EReader true;   (* readDisconnected read status ok *)
    EClose; ECloser;                                        (* Close: CAS ok -> active-closing *)
    EReader true]                                           (* plain store of passive-closing *)
-  ++ repeat (EReader true) 6 ++ repeat ECloser 7.
+  ++ repeat (EReader true) 7 ++ repeat ECloser 7.
 
 Lemma hook_once_prefix_refuted_lemma :
   exists s, srun_cfg cfg_nocas live_session close_race_history = Some s /\ hooks s = 2 /\ terminal_cfg cfg_nocas s = true.
 Proof. eexists. split; [vm_compute; reflexivity|]. vm_compute. auto. Qed.
 
 Lemma close_race_fixed :
-  exists s, srun live_session (firstn 7 close_race_history ++ repeat (EReader true) 6 ++ repeat ECloser 7) = Some s
+  exists s, srun live_session (firstn 7 close_race_history ++ repeat (EReader true) 7 ++ repeat ECloser 7) = Some s
             /\ hooks s = 1 /\ notified s = 1 /\ st s = ActiveClosed /\ terminal s = true.
 Proof. eexists. split; [vm_compute; reflexivity|]. vm_compute. auto. Qed.
 
 (* ---- accept order "index insert first, status ok when the accepting goroutine carries on"
         (serveListener before 6514bc6; the seeded change C07-r2m2 in ServeConn) ---- *)
-Definition cfg_noacc : cfg := mkCfg true true true true false.
+Definition cfg_noacc : cfg := mkCfg true true true true false true.
 
 (* O serves a handler; A is accepted under O's id (its goroutine parks in O's Close, which waits
    for the handler); B is accepted under the same id and closes A; then A's goroutine carries on *)
@@ -163,7 +163,7 @@ Lemma closed_absorbing_prefix_refuted_lemma :
   (exists p s, prun_cfg cfg_noacc peer0 resurrect_history = Some p /\
                nth_error (sessions p) 1 = Some s /\ st s = Ok /\ notified s = 1) /\
   (exists p s, prun_cfg cfg_noacc peer0
-                 (resurrect_history ++ [PSess 1 (EReader true); PSess 1 (EFrame FrErr)] ++ repeat (PSess 1 (EReader true)) 9) = Some p /\
+                 (resurrect_history ++ [PSess 1 (EReader true); PSess 1 (EFrame FrErr)] ++ repeat (PSess 1 (EReader true)) 10) = Some p /\
                nth_error (sessions p) 1 = Some s /\ st s = PassiveClosed /\ hooks s = 2).
 Proof.
   split; [|split]; eexists; eexists; (split; [vm_compute; reflexivity|]); vm_compute; auto.
